@@ -415,7 +415,7 @@ class SSHLineEditor:
         if self._max_line_length:
             if line_len + data_len > self._max_line_length:
                 self._ring_bell()
-                data_len = self._max_line_length - line_len
+                data_len = max(self._max_line_length - line_len, 0)
                 data = data[:data_len]
 
         if data:
